@@ -17,5 +17,6 @@ verus! {
 }
 //@@ include errors_tail
 //@@ include http_tail
+//@@ include body_tail
 impl Read for BaseStream { fn read(&mut self, b: &mut [u8]) -> io::Result<usize> { unimplemented!() } }
 fn main(){}
